@@ -97,4 +97,7 @@ def check(ctx):
         "alpha_multiphase == lambda_combined_func(pressure, So, pvt, kr) / compressibility_combined_func(pressure, So, phi, Sw, pvt)",
         A.nf if isinstance(A, Num) else nf.sym("?"), nf.div(lam, cmp_),
     )
+    from .common import check_interp_options
+
+    check_interp_options(ctx, "C16-f", ["bluebonnet.flow.flowproperties"], 8)
     ctx.floor("C16", len(ctx.obligs), 7, "storage / mobility obligations")
